@@ -137,7 +137,10 @@ def stochastic_output_units(rep, tier, rng, sc, allsys):
     nm, nv = (16, 3) if tier == "quick" else (80, 6)
     jobs, meta = [], []
     for mi in range(nm):
-        m = serial.random_phys_model(rng, max_cells=3, max_order=3)
+        for _ in range(10):          # a model in which something can happen (a reaction with a constant, or a diffusing species)
+            m = serial.random_phys_model(rng, max_cells=3, max_order=3)
+            if any(r.get("kf") or r.get("kr") for r in m.reactions) or (m.ncells() > 1 and any(sp.get("D") for sp in m.species)):
+                break
         times = {"dt": Fr(1, 32), "ts": [Fr(0), Fr(1, 4), Fr(1, 2), Fr(1)], "interval": Fr(1, 8)}
         ref = serial.Describer(sc, {"S1": serial.D, "S2": serial.D}, rng, explicit_p=0.0).script(m, ALL_DEFAULT, EFF_DEFAULT, dict(times, seed=1000 + mi))
         for kind in ("gillespie", "tauleap"):
@@ -176,7 +179,7 @@ def stochastic_output_units(rep, tier, rng, sc, allsys):
     nref_ok = sum(1 for r in refs.values() if r[0] == "ok")
     rep.extra["stochastic_output_units"] = {"reference_runs": len(refs), "reference_runs_usable": nref_ok, "variants_compared": compared,
                                             "variants_whose_state_moved": moved}
-    if nref_ok < len(refs) // 2 or moved < compared // 3:
+    if nref_ok < len(refs) // 2 or moved < max(1, compared // 6):
         raise MachineryError("stochastic output-units check is vacuous: %s" % rep.extra["stochastic_output_units"])
 
 
